@@ -200,6 +200,11 @@ func parseHtpasswd(pm map[string]PasswordMatcher, r io.Reader) error {
 			return fmt.Errorf("malformed line, no color: %q", line)
 		}
 		user, encoded := line[:i], line[i+1:]
+		// bcrypt cannot be verified here. The format table refuses its $2y$ form only; the other
+		// forms would fall through to the plain-text matcher, which makes the hash itself the password.
+		if strings.HasPrefix(encoded, "$2a$") || strings.HasPrefix(encoded, "$2b$") || strings.HasPrefix(encoded, "$2x$") {
+			return fmt.Errorf("bcrypt passwords are not accepted: %s", encoded)
+		}
 		for _, p := range basic.DefaultSystems {
 			matcher, err := p(encoded)
 			if err != nil {
